@@ -678,6 +678,12 @@ class ArrayInterp:
                     if m == 'transpose':
                         if not e.args:
                             return op_transpose(recv, None)
+                        names = [norm_text(a) for a in e.args]
+                        if self.env.get('__axis_names__') is not None and names == list(self.env['__axis_names__']):
+                            # DataArray.transpose(<dimension names>): the result is in that order whatever the stored order was;
+                            # the seeded value already stands for the array in that (canonical) order
+                            self.named_transposes = getattr(self, 'named_transposes', []) + [e]
+                            return recv
                         perm = self._shape_arg(e.args[0]) if len(e.args) == 1 else self._shape_arg(ast.Tuple(elts=list(e.args), ctx=ast.Load()))
                         if perm is None:
                             return Top('transpose with a non static permutation')
